@@ -243,7 +243,8 @@ impl RefTarget for StudentT {
 }
 fn student_batch<B: AutodiffBackend>(s: &StudentT, x: Tensor<B, 2>) -> Tensor<B, 1> {
     let r2 = (x.clone() * x).sum_dim(1).squeeze::<1>(1);
-    r2.div_scalar(s.nu).add_scalar(1.0).log().mul_scalar(-(s.nu + s.d as f64) / 2.0)
+    // (not div_scalar: burn-autodiff evaluates its backward pass with an f32 reciprocal)
+    r2.mul_scalar(1.0 / s.nu).add_scalar(1.0).log().mul_scalar(-(s.nu + s.d as f64) / 2.0)
 }
 impl_both!(StudentT, student_batch);
 
